@@ -145,6 +145,9 @@ type bItem struct {
 	nrooms int
 	setup  []bop
 	hist   []bop
+	// recovery: the server runs with connection state recovery, i.e. on the session-aware adapter, whose
+	// Broadcast is its own code path (encode once, log, fan out the frames)
+	recovery bool
 }
 
 // bItems enumerates, on the model alone, the histories to replay: BFS from every seed, deduplicated
@@ -178,14 +181,14 @@ func bItems(tier string) (items []bItem, states int, desc []map[string]any) {
 			seen[m.key()] = true
 			st++
 			frontier = append(frontier, node{seed, nil, m})
-			items = append(items, bItem{c.nrooms, seed, nil})
+			items = append(items, bItem{c.nrooms, seed, nil, false}, bItem{c.nrooms, seed, nil, true})
 		}
 		for d := 0; d < c.depth; d++ {
 			var next []node
 			for _, n := range frontier {
 				for _, o := range ops {
 					hist := append(append([]bop{}, n.hist...), o)
-					items = append(items, bItem{c.nrooms, n.setup, hist})
+					items = append(items, bItem{c.nrooms, n.setup, hist, false}, bItem{c.nrooms, n.setup, hist, true})
 					m := n.m
 					bApply(&m, o)
 					if !seen[m.key()] {
@@ -232,18 +235,24 @@ type expect struct {
 
 func replayB(idx int, it bItem, out *bOut) {
 	full := append(append([]bop{}, it.setup...), it.hist...)
-	replay := map[string]any{"part": "B", "setup": bHistStr(it.setup), "history": bHistStr(it.hist), "named_rooms": it.nrooms, "setup_ops": it.setup, "ops": it.hist}
+	replay := map[string]any{"part": "B", "setup": bHistStr(it.setup), "history": bHistStr(it.hist), "named_rooms": it.nrooms, "setup_ops": it.setup, "ops": it.hist, "recovery": it.recovery}
 	seenKey := map[string]bool{}
 	viol := func(key, detail string) {
 		if seenKey[key] {
 			return
 		}
 		seenKey[key] = true
-		out.Violations = append(out.Violations, bViolation{idx, len(full), key, fmt.Sprintf("set-up [%s] history [%s]: %s", bHistStr(it.setup), bHistStr(it.hist), detail), replay})
+		ad := ""
+		if it.recovery {
+			ad = " (connection state recovery on: session-aware adapter)"
+		}
+		out.Violations = append(out.Violations, bViolation{idx, len(full), key, fmt.Sprintf("set-up [%s] history [%s]%s: %s", bHistStr(it.setup), bHistStr(it.hist), ad, detail), replay})
 	}
 	finished := false
 	e := vsched.Run(vsched.Options{Horizon: 40 * time.Second}, func(e *vsched.Exec) {
-		srv := sio.NewServer(nil)
+		scfg := &sio.ServerConfig{}
+		scfg.ServerConnectionStateRecovery.Enabled = it.recovery
+		srv := sio.NewServer(scfg)
 		nsp := srv.Of("/")
 		var v vsched.Var
 		var socks []sio.ServerSocket
@@ -416,7 +425,14 @@ func replayB(idx int, it bItem, out *bOut) {
 					continue
 				}
 				out.Frames++
-				k, err := strconv.Atoi(strings.TrimSuffix(strings.TrimPrefix(t, `2["b",`), "]"))
+				body := strings.TrimSuffix(strings.TrimPrefix(t, `2["b",`), "]")
+				if it.recovery {
+					// with recovery every logged event carries its offset as an extra last argument
+					if j := strings.Index(body, `,"`); j >= 0 && strings.HasSuffix(body, `"`) {
+						body = body[:j]
+					}
+				}
+				k, err := strconv.Atoi(body)
 				if err != nil || k < 0 || k >= len(exps) {
 					viol("server: a connection received an EVENT frame nobody emitted", fmt.Sprintf("client%d got %q", i+1, t))
 					continue
